@@ -1,2 +1,2 @@
--- stub: replaced by the real driver for model Manager (imports Pyrtma.Drv.Manager)
-def main : IO Unit := pure ()
+import Pyrtma.Drv.Manager
+def main : IO Unit := Pyrtma.Drv.Manager.main
